@@ -287,6 +287,23 @@ fn backend<B: Backend, P: Prims>(opts: &Opts, rep: &mut Report) {
         let (ps, pp) = B::gen_pke_pair(&mut rng);
         candidate::<B, P>(rep, Kind::PkeSecret, "valid-generated", &ps);
         candidate::<B, P>(rep, Kind::PkePublic, "valid-generated", &pp);
+        // near misses: a valid key with one bit flipped (seed vs public half, sign bit, point parity, scalar)
+        if B::VER != 1 {
+            let pk_raw = key_from_bytes::<B, Secret>(&sk).map(|k| key_bytes(&k.public_key())).unwrap_or_default();
+            for (k, raw) in [(Kind::Secret, &sk), (Kind::Public, &pk_raw), (Kind::PkeSecret, &ps), (Kind::PkePublic, &pp)] {
+                if raw.is_empty() {
+                    continue;
+                }
+                let mut b = raw.clone();
+                let bit = match rng.below(4) {
+                    0 => b.len() * 8 - 1,     // top bit of the last byte (Ed25519 sign bit of the public half)
+                    1 => 0,                   // lowest bit of the first byte (SEC1 tag parity)
+                    _ => rng.below(b.len() * 8),
+                };
+                b[bit / 8] ^= 1 << (bit % 8);
+                candidate::<B, P>(rep, k, "near-miss-one-bit", &b);
+            }
+        }
     }
     // library generators
     for _ in 0..if B::VER == 1 { opts.size(0, 3) } else { opts.size(50, 2000) } {
